@@ -54,14 +54,23 @@ def ProducerContract (cfg : Cfg) (s : St) : Prop :=
       (r.err = .eof → a.sh.done = true ∧ a.sh.pseq = s.sh.pseq ∧
         (l ≤ c.cap → RingA.waitSpace c (absRing a) l = some (.eof, absRing a))) ∧
       (r.err = .ok → s.sh.done = false ∧
-        (commits call = true → r.n = l ∧ a.sh.pseq = s.sh.pseq + l ∧
-          ∃ pre post, sched = pre ++ .p :: post ∧
-            step cfg (run cfg s pre) .p = some (run cfg s (pre ++ [.p])) ∧
-            (absRing (run cfg s pre)).buf + l ≤ c.cap ∧
-            absRing (run cfg s (pre ++ [.p])) = { absRing (run cfg s pre) with buf := (absRing (run cfg s pre)).buf + l } ∧
-            RingA.commitP c (asOpen (absRing (run cfg s pre))) l = some (.ok, asOpen (absRing (run cfg s (pre ++ [.p]))))) ∧
+        (∃ pre post, sched = pre ++ .p :: post ∧
+          step cfg (run cfg s pre) .p = some (run cfg s (pre ++ [.p])) ∧
+          RingA.waitSpace c (absRing (run cfg s pre)) l = some (.ok, absRing (run cfg s pre)) ∧
+          absRing (run cfg s (pre ++ [.p])) = absRing (run cfg s pre) ∧
+          (commits call = true → ∃ mid post', post = mid ++ .p :: post' ∧
+            step cfg (run cfg s (pre ++ .p :: mid)) .p = some (run cfg s (pre ++ .p :: mid ++ [.p])) ∧
+            (absRing (run cfg s (pre ++ .p :: mid))).buf + l ≤ c.cap ∧
+            absRing (run cfg s (pre ++ .p :: mid ++ [.p])) =
+              { absRing (run cfg s (pre ++ .p :: mid)) with buf := (absRing (run cfg s (pre ++ .p :: mid))).buf + l } ∧
+            ((run cfg s (pre ++ .p :: mid)).sh.done = false →
+              RingA.commitP c (absRing (run cfg s (pre ++ .p :: mid))) l =
+                some (.ok, absRing (run cfg s (pre ++ .p :: mid ++ [.p])))))) ∧
+        (commits call = true → r.n = l ∧ a.sh.pseq = s.sh.pseq + l) ∧
         (commits call = false → a.sh.pseq = s.sh.pseq ∧
           RingA.waitSpace c (asOpen (absRing a)) l = some (.ok, asOpen (absRing a))))) ∧
+    (∀ pre post r, sched = pre ++ post → (run cfg s pre).sh.done = true → notPastFinal call rest (run cfg s pre) →
+      pRet a rest r → r.err ≠ .ok) ∧
     ((∀ t, step cfg a t = none) →
       (¬ pOver rest a ↔
         (pParked a.P.pc = true ∧ a.P.cur = some call ∧ a.P.prog = rest ∧ RingA.waitSpace c (absRing a) l = none)))
@@ -77,8 +86,11 @@ def ConsumerContract (cfg : Cfg) (s : St) : Prop :=
       (∀ r, cRet a rest r →
         a.sh.cseq = s.sh.cseq ∧ (r.err = .full ↔ c.cap < n) ∧
         (r.err = .full → RingA.waitData c (absRing a) n = some (.full, absRing a)) ∧
-        (r.err = .eof → a.sh.done = true ∧ (absRing s).buf < need w n ∧
-          RingA.waitData c (asClosed (absRing s)) (need w n) = some (.eof, asClosed (absRing s))) ∧
+        (r.err = .eof → a.sh.done = true ∧
+          ∃ pre post, sched = pre ++ .c :: post ∧
+            step cfg (run cfg s pre) .c = some (run cfg s (pre ++ [.c])) ∧
+            RingA.waitData c (absRing (run cfg s pre)) (need w n) = some (.eof, absRing (run cfg s pre)) ∧
+            absRing (run cfg s (pre ++ [.c])) = absRing (run cfg s pre)) ∧
         (r.err ≠ .eof → r.err ≠ .full → waitRes w n r ∧ r.n ≤ (absRing a).buf ∧
           (w = true → RingA.waitData c (absRing a) n = some (.ok, absRing a)))) ∧
       ((∀ t, step cfg a t = none) →
